@@ -5,14 +5,17 @@
 //!                                              `current().shutdown()` at that time (it is inactive afterwards)
 //!   gate g<j> mod=m<i>                         single gate named `g<j>` on that module
 //!   gate g<j> mod=m<i> cl=c<k> pos=<p> size=<s>   member `p` of the gate cluster `c<k>` (size `s`)
-//!   connect g<a> g<b> ch=none|<ns>             `g<a>.connect(g<b>, channel)`; channel = latency <ns>,
-//!                                              bitrate 0 (never busy), no jitter
+//!   connect g<a> g<b> ch=none|<ns> [br=<bit/s>]   `g<a>.connect(g<b>, channel)`; channel = latency <ns>, bitrate
+//!                                              <br> (default 0 = no transmission time, never busy), no jitter
+//!   lconnect g<a> g<b> ch=… [br=…] at=<ns> by=m<i>   the same call made at run time: module m<i> connects the
+//!                                              two gates from its `handle_message` at time <at>
 //!   walk g<j>                                  observe kind / path_iter / next_gate / path_end / prev_hop
 //!   send s<i> gate=g<j> at=<ns> delay=<ns> from=start|msg
 //!                                              the owner of g<j> calls `send` (delay 0) or `send_in`
 //!                                              at time <at> from `at_sim_start` (at = 0) or `handle_message`
 //! Transcript: each executed line + ` -> answer`.
-//!   connect … -> ok|panic
+//!   connect … -> ok [tx=<ns>] | panic         tx = `Channel::calculate_busy` of the (64 byte) test message, read from the code
+//!   lconnect … -> ok [tx=<ns>] | notrun | skipped   notrun: the module never got to it (shut down); skipped: a gate was full
 //!   walk g -> kind=<standalone|endpoint|transit> next=<g|none> end=<g|none> path=<g:ch,…|empty|none> prev=<g,…|empty|none>
 //!   send … -> n=<deliveries> [rx=<m> t=<ns> sender=<m> receiver=<m> last=<g|none>] | skipped-transit
 use crate::rng::Rng;
@@ -25,7 +28,23 @@ use std::sync::{Arc, Mutex};
 
 const TRIGGER: MessageKind = 7777;
 const SHUTDOWN: MessageKind = 7778;
+const LATE: MessageKind = 7779;
 const DATA: MessageKind = 42;
+
+thread_local! {
+    /// gates by script name, for `connect` calls made from module code at run time
+    static GATES: std::cell::RefCell<HashMap<String, GateRef>> = std::cell::RefCell::new(HashMap::new());
+}
+
+#[derive(Clone, Debug)]
+struct LateOp {
+    idx: u16,
+    a: String,
+    b: String,
+    lat: Option<u64>,
+    br: u64,
+    at: u64,
+}
 
 #[derive(Clone, Debug)]
 struct SendOp {
@@ -53,15 +72,31 @@ struct Shared {
     ids: HashMap<u16, String>,
     skipped: Vec<u16>,
     disabled: Vec<u16>,
+    late_done: Vec<(u16, &'static str)>,
 }
 
 struct Node {
     down: Option<u64>,
     sends: Vec<SendOp>,
+    late: Vec<LateOp>,
     shared: Arc<Mutex<Shared>>,
 }
 
 impl Node {
+    fn do_late(&self, op: &LateOp) {
+        let pair = GATES.with(|g| {
+            let g = g.borrow();
+            (g.get(&op.a).cloned(), g.get(&op.b).cloned())
+        });
+        let (Some(ga), Some(gb)) = pair else { return };
+        // a full gate would make `connect` panic inside the module
+        let ok = op.a != op.b && ga.kind() != GateKind::Transit && gb.kind() != GateKind::Transit;
+        if ok {
+            ga.connect(gb, op.lat.map(|l| channel(l, op.br)));
+        }
+        self.shared.lock().unwrap().late_done.push((op.idx, if ok { "ok" } else { "skipped" }));
+    }
+
     fn do_send(&self, op: &SendOp) {
         let Some(gate) = current().gate(&op.gate_name, op.gate_pos) else {
             return;
@@ -93,6 +128,9 @@ impl Module for Node {
         if let Some(d) = self.down {
             schedule_in(Message::default().kind(SHUTDOWN), Duration::from_nanos(d));
         }
+        for op in self.late.clone() {
+            schedule_in(Message::default().kind(LATE).id(op.idx), Duration::from_nanos(op.at));
+        }
         for op in self.sends.clone() {
             if op.from_start && op.at == 0 {
                 self.do_send(&op);
@@ -109,6 +147,12 @@ impl Module for Node {
         let h = msg.header();
         if h.kind == SHUTDOWN {
             current().shutdown();
+            return;
+        }
+        if h.kind == LATE {
+            if let Some(op) = self.late.iter().find(|o| o.idx == h.id).cloned() {
+                self.do_late(&op);
+            }
             return;
         }
         if h.kind == TRIGGER {
@@ -136,9 +180,21 @@ impl Module for Node {
     }
 }
 
-fn channel(ns: u64) -> ChannelRef {
+/// transmission time of the test message on this channel, as the implementation computes it
+fn tx_of(ch: &ChannelRef) -> u128 {
+    ch.calculate_busy(&Message::default().kind(DATA)).as_nanos()
+}
+
+fn parse_chan(tok: &[&str]) -> (Option<u64>, u64) {
+    let l = tok.join(" ");
+    let lat = hval(&l, "ch").and_then(|v| v.parse::<u64>().ok());
+    let br = hval(&l, "br").and_then(|v| v.parse::<u64>().ok()).unwrap_or(0);
+    (lat, br)
+}
+
+fn channel(ns: u64, bitrate: u64) -> ChannelRef {
     Channel::new(ChannelMetrics {
-        bitrate: 0,
+        bitrate: bitrate as usize,
         latency: Duration::from_nanos(ns),
         jitter: Duration::ZERO,
         drop_behaviour: ChannelDropBehaviour::Queue(None),
@@ -154,6 +210,7 @@ struct GateInfo {
 enum Line {
     Plain(String),
     Send(String, u16),
+    Late(String, u16, Option<u128>),
 }
 
 fn kind_str(k: GateKind) -> &'static str {
@@ -222,6 +279,32 @@ fn run_case(header: &str, body: &[String], out: &mut String) {
         }
     }
 
+    let mut late_of: HashMap<String, Vec<LateOp>> = HashMap::new();
+    let mut late_idx: u16 = 0;
+    let mut late_lines: HashMap<String, u16> = HashMap::new();
+    for line in body {
+        let tok: Vec<&str> = line.split_whitespace().collect();
+        if let ["lconnect", a, b, rest @ ..] = tok.as_slice() {
+            let l = rest.join(" ");
+            let Some(by) = hval(&l, "by") else { continue };
+            if !mods.contains(&by) || !gate_decl.contains_key(*a) || !gate_decl.contains_key(*b) || late_lines.contains_key(line) {
+                continue;
+            }
+            let (lat, br) = parse_chan(rest);
+            let op = LateOp {
+                idx: late_idx,
+                a: a.to_string(),
+                b: b.to_string(),
+                lat,
+                br,
+                at: hval(&l, "at").and_then(|v| v.parse().ok()).unwrap_or(1),
+            };
+            late_lines.insert(line.clone(), late_idx);
+            late_idx += 1;
+            late_of.entry(by).or_default().push(op);
+        }
+    }
+
     // pass 2: build
     let shared = Arc::new(Mutex::new(Shared::default()));
     let mut sim = Sim::new(());
@@ -252,6 +335,7 @@ fn run_case(header: &str, body: &[String], out: &mut String) {
                 let node = Node {
                     down: hval(&rest.join(" "), "down").and_then(|v| v.parse().ok()),
                     sends: sends_of.get(*m).cloned().unwrap_or_default(),
+                    late: late_of.get(*m).cloned().unwrap_or_default(),
                     shared: shared.clone(),
                 };
                 if guarded(|| sim.node(*m, node)).is_ok() {
@@ -279,10 +363,11 @@ fn run_case(header: &str, body: &[String], out: &mut String) {
                     lines.push(Line::Plain(format!("{line} -> ok")));
                 }
             }
-            ["connect", a, b, ch] => {
+            ["connect", a, b, rest @ ..] => {
                 let (Some(ga), Some(gb)) = (gates.get(*a).cloned(), gates.get(*b).cloned()) else { continue };
-                let chv = ch.strip_prefix("ch=").unwrap_or("none");
-                let chan = chv.parse::<u64>().ok().map(channel);
+                let (lat, br) = parse_chan(rest);
+                let chan = lat.map(|l| channel(l, br));
+                let tx = chan.as_ref().map(tx_of);
                 if poisoned.contains(&a.to_string()) || poisoned.contains(&b.to_string()) {
                     continue;
                 }
@@ -291,7 +376,23 @@ fn run_case(header: &str, body: &[String], out: &mut String) {
                     poisoned.push(a.to_string());
                     poisoned.push(b.to_string());
                 }
-                lines.push(Line::Plain(format!("{line} -> {}", if r.is_ok() { "ok" } else { "panic" })));
+                let txs = match (r.is_ok(), tx) {
+                    (true, Some(t)) => format!(" tx={t}"),
+                    _ => String::new(),
+                };
+                lines.push(Line::Plain(format!("{line} -> {}{txs}", if r.is_ok() { "ok" } else { "panic" })));
+            }
+            ["lconnect", a, b, rest @ ..] => {
+                let Some(idx) = late_lines.get(line) else { continue };
+                if !gates.contains_key(*a) || !gates.contains_key(*b) || !poisoned.is_empty() {
+                    continue;
+                }
+                if lines.iter().any(|l| matches!(l, Line::Late(_, i, _) if i == idx)) {
+                    continue;
+                }
+                let (lat, br) = parse_chan(rest);
+                let tx = lat.map(|l| tx_of(&channel(l, br)));
+                lines.push(Line::Late(line.clone(), *idx, tx));
             }
             ["walk", g] => {
                 let Some(gr) = gates.get(*g).cloned() else { continue };
@@ -310,7 +411,8 @@ fn run_case(header: &str, body: &[String], out: &mut String) {
                                     .iter()
                                     .map(|c| {
                                         let ch = match c.channel() {
-                                            Some(ch) => ch.metrics().latency.as_nanos().to_string(),
+                                            // delay of the idle channel for the test message: latency + transmission time
+                                            Some(ch) => (ch.metrics().latency.as_nanos() + tx_of(&ch)).to_string(),
                                             None => "none".to_string(),
                                         };
                                         format!("{}:{}", gname(&rev, &c.endpoint), ch)
@@ -352,17 +454,27 @@ fn run_case(header: &str, body: &[String], out: &mut String) {
     }
 
     // run
-    let rt = Builder::seeded(1).quiet().build(sim.freeze());
+    GATES.with(|g| *g.borrow_mut() = gates.clone());
+    let rt = Builder::seeded(1).quiet().max_time(100_000.0.into()).build(sim.freeze());
     let res = guarded(move || rt.run().map(|_| ()).map_err(|e| format!("{e}")));
     let run_note = match res {
         Ok(Ok(())) => "",
         Ok(Err(_)) => " run-error",
         Err(_) => " run-panic",
     };
+    GATES.with(|g| g.borrow_mut().clear());
     let sh = shared.lock().unwrap();
     for l in lines {
         match l {
             Line::Plain(s) => writeln!(out, "{s}").unwrap(),
+            Line::Late(s, idx, tx) => match sh.late_done.iter().find(|d| d.0 == idx) {
+                Some((_, "ok")) => match tx {
+                    Some(t) => writeln!(out, "{s} -> ok tx={t}").unwrap(),
+                    None => writeln!(out, "{s} -> ok").unwrap(),
+                },
+                Some((_, o)) => writeln!(out, "{s} -> {o}").unwrap(),
+                None => writeln!(out, "{s} -> notrun").unwrap(),
+            },
             Line::Send(s, idx) => {
                 if sh.skipped.contains(&idx) {
                     writeln!(out, "{s} -> skipped-transit").unwrap();
@@ -406,7 +518,13 @@ pub fn exec(input: &str) -> String {
 
 // all message times are even, shutdown times odd: no ties between a shutdown and a message passing
 const DELAYS: [u64; 6] = [2, 10, 1_000, 30_000, 1_000_000, 2_500_000_000];
-const DOWNS: [u64; 8] = [1, 3, 11, 1_001, 30_001, 1_000_001, 2_500_000_001, 2_500_030_011];
+// shutdown times are 1 mod 4, run-time connect times 3 mod 4: no ties among them either
+const DOWNS: [u64; 8] = [1, 5, 13, 1_001, 30_001, 1_000_001, 2_500_000_001, 2_500_030_013];
+const LATES: [u64; 6] = [3, 7, 1_003, 30_003, 1_000_003, 2_500_000_003];
+// bitrates whose transmission time for the 64-byte test message (512 bit) is a whole, even number of ns
+const BITRATES: [u64; 6] = [512, 1_024, 512_000, 5_120_000, 256_000_000, 51_200_000_000];
+// in cases with finite bitrates the sends are this far apart, so every channel is idle again
+const GAP: u64 = 100_000_000_000;
 
 pub fn gen(seed: u64, count: usize, thorough: bool) -> String {
     let mut r = Rng::new(seed);
@@ -416,7 +534,9 @@ pub fn gen(seed: u64, count: usize, thorough: bool) -> String {
         let hops = if thorough { r.range(1, 12) } else if r.chance(1, 3) { r.range(1, 4) } else { r.range(1, 12) } as usize;
         let extra = r.below(5) as usize;
         let ngates = hops + 1 + extra;
-        writeln!(out, "case {k} hops={hops}").unwrap();
+        // 0: latency-only channels; 1: channels with a finite bitrate; 2: part of the wiring happens at run time
+        let mode = r.below(3);
+        writeln!(out, "case {k} hops={hops} mode={mode}").unwrap();
         let with_down = nmods >= 2 && r.chance(1, 2);
         for m in 0..nmods {
             if with_down && r.chance(1, 3) {
@@ -453,10 +573,23 @@ pub fn gen(seed: u64, count: usize, thorough: bool) -> String {
             let len = r.range(2, extra as u64) as usize;
             chains.push(perm[hops + 1..hops + 1 + len].to_vec());
         }
-        let mut links: Vec<(usize, usize, Option<u64>)> = Vec::new();
+        // a channel: (latency, bitrate)
+        let mut mkch = |r: &mut Rng| -> Option<(u64, u64)> {
+            if r.chance(1, 2) {
+                None
+            } else if mode == 1 && r.chance(2, 3) {
+                // finite bitrate, half of them without any latency
+                Some((if r.chance(1, 2) { 0 } else { *r.pick(&DELAYS) }, *r.pick(&BITRATES)))
+            } else if r.chance(1, 10) {
+                Some((0, 0))
+            } else {
+                Some((*r.pick(&DELAYS), 0))
+            }
+        };
+        let mut links: Vec<(usize, usize, Option<(u64, u64)>)> = Vec::new();
         for c in &chains {
             for w in c.windows(2) {
-                let ch = if r.chance(1, 2) { Some(*r.pick(&DELAYS)) } else { None };
+                let ch = mkch(&mut r);
                 if r.chance(1, 2) {
                     links.push((w[0], w[1], ch));
                 } else {
@@ -468,31 +601,51 @@ pub fn gen(seed: u64, count: usize, thorough: bool) -> String {
             let j = r.below(i as u64 + 1) as usize;
             links.swap(i, j);
         }
-        let chs = |c: Option<u64>| c.map(|v| v.to_string()).unwrap_or_else(|| "none".into());
+        let chs = |c: Option<(u64, u64)>| match c {
+            None => "ch=none".to_string(),
+            Some((l, 0)) => format!("ch={l}"),
+            Some((l, b)) => format!("ch={l} br={b}"),
+        };
+        // mode 2: one to three links are connected by some module while the simulation runs
+        let mut late_times: Vec<u64> = LATES.to_vec();
+        let mut nlate = if mode == 2 { r.range(1, 3) as usize } else { 0 };
+        let mut deferred: Vec<String> = Vec::new();
         let mut done: Vec<(usize, usize)> = Vec::new();
+        // most often the link of the main chain's first gate is among them: a `send_in` issued on that gate at
+        // t = 0 then starts on a gate that is still unconnected
+        let c0 = chains[0][0];
+        let defer_first = mode == 2 && r.chance(2, 3);
         for (a, b, ch) in &links {
-            writeln!(out, "connect g{a} g{b} ch={}", chs(*ch)).unwrap();
+            let is_first = *a == c0 || *b == c0;
+            if nlate > 0 && ((defer_first && is_first) || r.chance(1, 3)) {
+                nlate -= 1;
+                let t = late_times.remove(r.below(late_times.len() as u64) as usize);
+                deferred.push(format!("lconnect g{a} g{b} {} at={t} by=m{}", chs(*ch), r.below(nmods as u64)));
+                continue;
+            }
+            writeln!(out, "connect g{a} g{b} {}", chs(*ch)).unwrap();
             done.push((*a, *b));
             // noise: repeated / mirrored connect, self connect, connect onto arbitrary gates
             match r.below(12) {
                 0 => {
                     let (x, y) = *r.pick(&done);
-                    let ch2 = if r.chance(1, 2) { Some(*r.pick(&DELAYS)) } else { None };
+                    let ch2 = mkch(&mut r);
                     if r.chance(1, 2) {
-                        writeln!(out, "connect g{x} g{y} ch={}", chs(ch2)).unwrap();
+                        writeln!(out, "connect g{x} g{y} {}", chs(ch2)).unwrap();
                     } else {
-                        writeln!(out, "connect g{y} g{x} ch={}", chs(ch2)).unwrap();
+                        writeln!(out, "connect g{y} g{x} {}", chs(ch2)).unwrap();
                     }
                 }
                 1 => {
                     let x = r.below(ngates as u64);
                     writeln!(out, "connect g{x} g{x} ch=none").unwrap();
                 }
-                2 if r.chance(1, 3) => {
+                // (not while part of the wiring is deferred: closing a ring under a travelling message makes it circulate forever)
+                2 if mode != 2 && r.chance(1, 3) => {
                     // arbitrary pair: may panic (full), may legitimately join or close something
                     let x = r.below(ngates as u64);
                     let y = r.below(ngates as u64);
-                    writeln!(out, "connect g{x} g{y} ch={}", chs(Some(*r.pick(&DELAYS)))).unwrap();
+                    writeln!(out, "connect g{x} g{y} {}", chs(Some((*r.pick(&DELAYS), 0)))).unwrap();
                 }
                 3 | 4 => {
                     writeln!(out, "walk g{}", r.below(ngates as u64)).unwrap();
@@ -500,13 +653,16 @@ pub fn gen(seed: u64, count: usize, thorough: bool) -> String {
                 _ => {}
             }
         }
-        if r.chance(1, 12) {
+        if mode != 2 && r.chance(1, 12) {
             // close the main chain into a ring
             let c = &chains[0];
             writeln!(out, "connect g{} g{} ch=none", c[c.len() - 1], c[0]).unwrap();
         }
         for g in 0..ngates {
             writeln!(out, "walk g{g}").unwrap();
+        }
+        for l in &deferred {
+            writeln!(out, "{l}").unwrap();
         }
         // sends: both ends of every chain, some standalone / arbitrary gates
         let mut s = 0;
@@ -518,6 +674,11 @@ pub fn gen(seed: u64, count: usize, thorough: bool) -> String {
         for _ in 0..r.below(3) {
             targets.push(r.below(ngates as u64) as usize);
         }
+        if mode == 2 {
+            // issued at t = 0, moves after every run-time connect
+            writeln!(out, "send s{s} gate=g{c0} at=0 delay=2500000010 from={}", if r.chance(1, 2) { "start" } else { "msg" }).unwrap();
+            s += 1;
+        }
         for g in targets {
             let reps = if r.chance(1, 4) { 2 } else { 1 };
             for _ in 0..reps {
@@ -526,6 +687,8 @@ pub fn gen(seed: u64, count: usize, thorough: bool) -> String {
                     2 => 2 * r.range(1, 1000),
                     _ => *r.pick(&DELAYS),
                 };
+                // finite bitrates: one message at a time in the whole network
+                let at = if mode == 1 { s as u64 * GAP + at } else { at };
                 let delay = if r.chance(1, 2) { 0 } else { *r.pick(&DELAYS) + 2 * r.below(3) };
                 let from = if at == 0 && r.chance(1, 2) { "start" } else { "msg" };
                 writeln!(out, "send s{s} gate=g{g} at={at} delay={delay} from={from}").unwrap();
